@@ -1,4 +1,401 @@
-//! C18: not built yet.
-use crate::util::Ctx;
+//! C18 — executable documents are typed consistently with the schema.
+//!
+//! Stream (Lean model: Model/TypedDoc.lean):
+//!   c18.typed  schema doc → typed dump of the document built by `ast::Document::to_executable`
+//!                           (per field: name, definition id, selection-set type; per inline fragment / operation /
+//!                           fragment: selection-set type) + the `root_fields` / `all_fields` sequences of every operation
+//! Oracles on the implementation, written from the property text (they never call `Schema::type_field`):
+//!   typing-*   every field's definition is the schema's definition of that name on the parent type (explicit field,
+//!              `__typename` on composite types, `__schema`/`__type` on the query root), selection sets are typed by the
+//!              field's inner type / the type condition / the parent type;
+//!   iter-*     both iterators yield exactly the fields of a recursive walk that enters each named fragment once;
+//!   valid-*    in a document that validates: spreads defined, no cycle, used variables defined, leaf shape.
+use crate::p20::{self, Def, Intern, Sel};
+use crate::util::*;
+use apollo_compiler::ast::OperationType;
+use apollo_compiler::executable as ex;
+use apollo_compiler::schema::{ExtendedType, FieldDefinition};
+use apollo_compiler::validation::Valid;
+use apollo_compiler::{ast, ExecutableDocument, Node, Schema};
+use std::collections::{BTreeSet, HashSet};
 
-pub fn run(_ctx: &mut Ctx) {}
+struct View {
+    name: String,
+    schema: Valid<Schema>,
+    /// explicit field definitions in export order; id = index + 3
+    defs: Vec<Node<FieldDefinition>>,
+}
+
+fn kind_code(t: &ExtendedType) -> &'static str {
+    match t {
+        ExtendedType::Object(_) => "o", ExtendedType::Interface(_) => "i", ExtendedType::Union(_) => "u",
+        ExtendedType::Scalar(_) => "s", ExtendedType::Enum(_) => "e", ExtendedType::InputObject(_) => "n",
+    }
+}
+
+fn make_view(name: &str, src: &str) -> Result<View, String> {
+    let schema = Schema::parse_and_validate(src, "s.graphql").map_err(|e| e.errors.to_string())?;
+    let mut defs = vec![];
+    for t in schema.types.values() {
+        match t {
+            ExtendedType::Object(o) => for f in o.fields.values() { defs.push(f.node.clone()); },
+            ExtendedType::Interface(o) => for f in o.fields.values() { defs.push(f.node.clone()); },
+            _ => {}
+        }
+    }
+    Ok(View { name: name.to_string(), schema, defs })
+}
+
+fn e_schema(v: &View, it: &mut Intern) -> String {
+    let s = &v.schema;
+    let mut o: Vec<String> = vec!["R".into()];
+    for t in [OperationType::Query, OperationType::Mutation, OperationType::Subscription] {
+        o.push(match s.root_operation(t) { Some(n) => it.id(n.as_str()).to_string(), None => "-".into() });
+    }
+    let mut next = 3usize;
+    for (n, t) in &s.types {
+        o.push("T".into()); o.push(it.id(n.as_str()).to_string()); o.push(kind_code(t).into());
+        let fields: Vec<(&str, &Node<FieldDefinition>)> = match t {
+            ExtendedType::Object(x) => x.fields.iter().map(|(k, f)| (k.as_str(), &f.node)).collect(),
+            ExtendedType::Interface(x) => x.fields.iter().map(|(k, f)| (k.as_str(), &f.node)).collect(),
+            _ => vec![],
+        };
+        o.push(fields.len().to_string());
+        for (k, f) in fields {
+            o.push(it.id(k).to_string()); o.push(next.to_string()); o.push(it.id(f.ty.inner_named_type().as_str()).to_string());
+            next += 1;
+        }
+    }
+    o.join(" ")
+}
+
+/// identity of the definition a built field carries: index of the schema node it points to, or the
+/// meta-field it structurally is; `?` if neither
+fn def_id(v: &View, d: &Node<FieldDefinition>) -> String {
+    if let Some(i) = v.defs.iter().position(|x| x.ptr_eq(d)) { return (i + 3).to_string(); }
+    if let Some(i) = v.defs.iter().position(|x| **x == **d && x.location() == d.location()) { return (i + 3).to_string(); }
+    match (d.name.as_str(), d.ty.to_string().as_str()) {
+        ("__typename", "String!") if d.arguments.is_empty() => "0".into(),
+        ("__schema", "__Schema!") if d.arguments.is_empty() => "1".into(),
+        ("__type", "__Type") if d.arguments.len() == 1 => "2".into(),
+        _ => "?".into(),
+    }
+}
+
+fn dump_sels(v: &View, it: &mut Intern, s: &ex::SelectionSet, o: &mut String) {
+    for sel in &s.selections {
+        match sel {
+            ex::Selection::Field(f) => {
+                o.push_str(&format!("F{}:{}:{}[", it.id(f.name.as_str()), def_id(v, &f.definition), it.id(f.selection_set.ty.as_str())));
+                dump_sels(v, it, &f.selection_set, o);
+                o.push(']');
+            }
+            ex::Selection::FragmentSpread(sp) => o.push_str(&format!("S{};", it.id(sp.fragment_name.as_str()))),
+            ex::Selection::InlineFragment(i) => {
+                let tc = match &i.type_condition { Some(t) => it.id(t.as_str()).to_string(), None => "-".into() };
+                o.push_str(&format!("I{}:{}[", tc, it.id(i.selection_set.ty.as_str())));
+                dump_sels(v, it, &i.selection_set, o);
+                o.push(']');
+            }
+        }
+    }
+}
+
+fn items<'a>(it: &mut Intern, fs: impl Iterator<Item = &'a Node<ex::Field>>) -> String {
+    let v: Vec<String> = fs.map(|f| format!("{}:{}", it.id(f.name.as_str()), it.id(f.selection_set.ty.as_str()))).collect();
+    v.join(" ")
+}
+
+fn dump_doc(v: &View, it: &mut Intern, d: &ExecutableDocument) -> String {
+    let mut ops = vec![];
+    for op in d.operations.iter() {
+        let mut o = format!("op:{}:{}[", match &op.name { Some(n) => it.id(n.as_str()).to_string(), None => "-".into() }, it.id(op.selection_set.ty.as_str()));
+        dump_sels(v, it, &op.selection_set, &mut o);
+        o.push_str("] R(");
+        o.push_str(&items(it, op.root_fields(d)));
+        o.push_str(") A(");
+        o.push_str(&items(it, op.all_fields(d)));
+        o.push(')');
+        ops.push(o);
+    }
+    let mut frs = vec![];
+    for (n, f) in &d.fragments {
+        let mut o = format!("frag:{}:{}[", it.id(n.as_str()), it.id(f.selection_set.ty.as_str()));
+        dump_sels(v, it, &f.selection_set, &mut o);
+        o.push(']');
+        frs.push(o);
+    }
+    format!("{} | {}", ops.join(" "), frs.join(" "))
+}
+
+// ---------------------------------------------------------------- oracle: typing
+
+fn is_composite(s: &Schema, t: &str) -> bool {
+    matches!(s.types.get(t), Some(ExtendedType::Object(_) | ExtendedType::Interface(_) | ExtendedType::Union(_)))
+}
+
+/// the property's "schema's definition of that field on its parent type (meta-fields included)"
+/// Some(Ok(node)) explicit definition, Some(Err(meta name)) a meta-field, None: the parent type has no such field
+fn spec_lookup<'a>(s: &'a Schema, parent: &str, field: &str) -> Option<Result<&'a Node<FieldDefinition>, &'static str>> {
+    let explicit = match s.types.get(parent)? {
+        ExtendedType::Object(o) => o.fields.get(field).map(|c| &c.node),
+        ExtendedType::Interface(o) => o.fields.get(field).map(|c| &c.node),
+        _ => None,
+    };
+    if let Some(n) = explicit { return Some(Ok(n)); }
+    if field == "__typename" && is_composite(s, parent) { return Some(Err("__typename")); }
+    let is_query_root = s.schema_definition.query.as_ref().is_some_and(|q| q.name.as_str() == parent);
+    if is_query_root && field == "__schema" { return Some(Err("__schema")); }
+    if is_query_root && field == "__type" { return Some(Err("__type")); }
+    None
+}
+
+fn check_sels(ctx: &mut Ctx, s: &Schema, input: &str, parent: &str, set: &ex::SelectionSet, n_fields: &mut usize) {
+    for sel in &set.selections {
+        match sel {
+            ex::Selection::Field(f) => {
+                *n_fields += 1;
+                match spec_lookup(s, parent, f.name.as_str()) {
+                    None => ctx.fail("typing-field-without-definition", input, &format!("field `{}` is in the document but type `{parent}` has no such field", f.name)),
+                    Some(Ok(node)) => {
+                        if !(node.ptr_eq(&f.definition) || (**node == *f.definition && node.location() == f.definition.location())) {
+                            ctx.fail("typing-field-definition", input, &format!("field `{}` on `{parent}` carries definition `{}: {}` instead of `{parent}.{}: {}`", f.name, f.definition.name, f.definition.ty, node.name, node.ty));
+                        }
+                    }
+                    Some(Err(meta)) => {
+                        let want_ty = match meta { "__typename" => "String!", "__schema" => "__Schema!", _ => "__Type" };
+                        if f.definition.name.as_str() != meta || f.definition.ty.to_string() != want_ty {
+                            ctx.fail("typing-meta-field-definition", input, &format!("meta-field `{}` on `{parent}` carries definition `{}: {}`", f.name, f.definition.name, f.definition.ty));
+                        }
+                        ctx.stat(&format!("meta_{meta}"));
+                    }
+                }
+                let inner = f.definition.ty.inner_named_type();
+                if f.selection_set.ty != *inner {
+                    ctx.fail("typing-selection-set-type", input, &format!("selection set of field `{}` is typed `{}`, its definition's inner type is `{inner}`", f.name, f.selection_set.ty));
+                }
+                check_sels(ctx, s, input, f.selection_set.ty.as_str(), &f.selection_set, n_fields);
+            }
+            ex::Selection::FragmentSpread(_) => {}
+            ex::Selection::InlineFragment(i) => {
+                let want = match &i.type_condition { Some(t) => t.as_str(), None => { ctx.stat("inline_without_type_condition"); parent } };
+                if i.selection_set.ty.as_str() != want {
+                    ctx.fail("typing-inline-fragment-type", input, &format!("inline fragment (type condition {:?}) inside `{parent}` is typed `{}`", i.type_condition.as_ref().map(|t| t.as_str()), i.selection_set.ty));
+                }
+                check_sels(ctx, s, input, i.selection_set.ty.as_str(), &i.selection_set, n_fields);
+            }
+        }
+    }
+}
+
+// ---------------------------------------------------------------- oracle: iterators
+
+fn fkey(f: &Node<ex::Field>) -> (usize, String) { (f.location().map(|l| l.offset()).unwrap_or(usize::MAX), f.name.to_string()) }
+
+fn walk_spec(d: &ExecutableDocument, set: &ex::SelectionSet, all: bool, seen: &mut HashSet<String>, out: &mut Vec<(usize, String)>) {
+    for sel in &set.selections {
+        match sel {
+            ex::Selection::Field(f) => { out.push(fkey(f)); if all { walk_spec(d, &f.selection_set, all, seen, out); } }
+            ex::Selection::InlineFragment(i) => walk_spec(d, &i.selection_set, all, seen, out),
+            ex::Selection::FragmentSpread(sp) => {
+                if let Some(fr) = d.fragments.get(&sp.fragment_name) {
+                    if seen.insert(sp.fragment_name.to_string()) { walk_spec(d, &fr.selection_set, all, seen, out); }
+                }
+            }
+        }
+    }
+}
+
+// ---------------------------------------------------------------- oracle: valid documents
+
+fn value_vars(v: &ast::Value, out: &mut BTreeSet<String>) {
+    match v {
+        ast::Value::Variable(n) => { out.insert(n.to_string()); }
+        ast::Value::List(l) => for x in l { value_vars(x, out); },
+        ast::Value::Object(l) => for (_, x) in l { value_vars(x, out); },
+        _ => {}
+    }
+}
+fn dirs_vars(ds: &ast::DirectiveList, out: &mut BTreeSet<String>) { for d in ds.iter() { for a in &d.arguments { value_vars(&a.value, out); } } }
+
+fn valid_sels(ctx: &mut Ctx, s: &Schema, d: &ExecutableDocument, input: &str, set: &ex::SelectionSet, seen: &mut HashSet<String>, vars: &mut BTreeSet<String>) {
+    for sel in &set.selections {
+        match sel {
+            ex::Selection::Field(f) => {
+                dirs_vars(&f.directives, vars);
+                for a in &f.arguments { value_vars(&a.value, vars); }
+                let inner = f.definition.ty.inner_named_type();
+                let comp = is_composite(s, inner.as_str());
+                if comp && f.selection_set.selections.is_empty() { ctx.fail("valid-composite-without-subselection", input, &format!("valid document: field `{}` of composite type `{inner}` has no sub-selection", f.name)); }
+                if !comp && !f.selection_set.selections.is_empty() { ctx.fail("valid-leaf-with-subselection", input, &format!("valid document: field `{}` of leaf type `{inner}` has a sub-selection", f.name)); }
+                valid_sels(ctx, s, d, input, &f.selection_set, seen, vars);
+            }
+            ex::Selection::InlineFragment(i) => { dirs_vars(&i.directives, vars); valid_sels(ctx, s, d, input, &i.selection_set, seen, vars); }
+            ex::Selection::FragmentSpread(sp) => {
+                dirs_vars(&sp.directives, vars);
+                match d.fragments.get(&sp.fragment_name) {
+                    None => ctx.fail("valid-undefined-spread", input, &format!("valid document spreads undefined fragment `{}`", sp.fragment_name)),
+                    Some(fr) => if seen.insert(sp.fragment_name.to_string()) { dirs_vars(&fr.directives, vars); valid_sels(ctx, s, d, input, &fr.selection_set, seen, vars); },
+                }
+            }
+        }
+    }
+}
+
+fn spreads_of(set: &ex::SelectionSet, out: &mut Vec<String>) {
+    for sel in &set.selections {
+        match sel {
+            ex::Selection::Field(f) => spreads_of(&f.selection_set, out),
+            ex::Selection::InlineFragment(i) => spreads_of(&i.selection_set, out),
+            ex::Selection::FragmentSpread(sp) => out.push(sp.fragment_name.to_string()),
+        }
+    }
+}
+
+fn has_cycle(d: &ExecutableDocument) -> Option<String> {
+    // colour DFS over the spread graph
+    fn go(d: &ExecutableDocument, n: &str, grey: &mut Vec<String>, black: &mut HashSet<String>) -> Option<String> {
+        if black.contains(n) { return None; }
+        if grey.iter().any(|g| g == n) { return Some(n.to_string()); }
+        let Some(fr) = d.fragments.get(n) else { return None };
+        grey.push(n.to_string());
+        let mut sp = vec![];
+        spreads_of(&fr.selection_set, &mut sp);
+        for m in sp { if let Some(c) = go(d, &m, grey, black) { return Some(c); } }
+        grey.pop();
+        black.insert(n.to_string());
+        None
+    }
+    let mut black = HashSet::new();
+    for n in d.fragments.keys() { if let Some(c) = go(d, n.as_str(), &mut vec![], &mut black) { return Some(c); } }
+    None
+}
+
+// ---------------------------------------------------------------- one case
+
+static DOCN: std::sync::atomic::AtomicUsize = std::sync::atomic::AtomicUsize::new(0);
+
+fn one(ctx: &mut Ctx, views: &[View], defs: &[Def], family: &str) {
+    let text = p20::doc_text(defs);
+    let text1 = text.replace('\n', " ");
+    ctx.stat(&format!("family_{family}"));
+    let Ok(ast_doc) = ast::Document::parse(text.clone(), "d.graphql") else { ctx.fail("generator-syntax-error", &text1, "does not parse"); return };
+    let docn = DOCN.fetch_add(1, std::sync::atomic::Ordering::Relaxed);
+    for (vi, v) in views.iter().enumerate() {
+        // the first schema always, each of the others for every second document (all of them for the fixed inputs)
+        if vi > 0 && !family.starts_with("fixed") && (docn + vi) % 2 != 0 { continue; }
+        ctx.stat(&format!("schema_{}", v.name));
+        let built = catch(|| match ast_doc.to_executable(&v.schema) { Ok(d) => (d, true), Err(e) => (e.partial, false) });
+        let (doc, build_ok) = match built { Ok(x) => x, Err(p) => { ctx.fail("to-executable-panic", &text1, &p); continue; } };
+        if build_ok { ctx.stat("build_ok"); } else { ctx.stat("build_errors"); }
+        let input = format!("[schema {}] {}", v.name, text1);
+        // correspondence
+        let mut it = Intern::new();
+        let enc_doc = p20::e_doc(defs, &mut it);
+        let enc_s = e_schema(v, &mut it);
+        let dump = match catch(|| dump_doc(v, &mut it, &doc)) { Ok(d) => d, Err(p) => { ctx.fail("iterator-panic", &input, &p); continue; } };
+        ctx.case("c18.typed", &[format!("={enc_s}"), format!("={enc_doc}")], &dump);
+        // oracle: typing
+        let mut n_fields = 0usize;
+        for op in doc.operations.iter() {
+            match v.schema.root_operation(op.operation_type) {
+                Some(t) if *t == op.selection_set.ty => {}
+                other => ctx.fail("typing-root-type", &input, &format!("operation is typed `{}`, the schema's root type is {:?}", op.selection_set.ty, other.map(|t| t.as_str()))),
+            }
+            let ty = op.selection_set.ty.to_string();
+            check_sels(ctx, &v.schema, &input, &ty, &op.selection_set, &mut n_fields);
+        }
+        for (n, fr) in &doc.fragments {
+            let tcs: Vec<&str> = defs.iter().filter_map(|d| match d { Def::Frag(f) if f.name == n.as_str() => Some(f.tc.as_str()), _ => None }).collect();
+            if !tcs.contains(&fr.selection_set.ty.as_str()) {
+                ctx.fail("typing-fragment-type", &input, &format!("fragment `{n}` is typed `{}`, its type condition is one of {:?}", fr.selection_set.ty, tcs));
+            }
+            let ty = fr.selection_set.ty.to_string();
+            check_sels(ctx, &v.schema, &input, &ty, &fr.selection_set, &mut n_fields);
+        }
+        ctx.stat_n("fields_checked", n_fields as u64);
+        if n_fields > 0 { ctx.nontrivial(&format!("{vi}|{text1}")); }
+        // oracle: iterators
+        for op in doc.operations.iter() {
+            for all in [false, true] {
+                let mut want = vec![];
+                walk_spec(&doc, &op.selection_set, all, &mut HashSet::new(), &mut want);
+                let mut got: Vec<(usize, String)> = if all { op.all_fields(&doc).map(fkey).collect() } else { op.root_fields(&doc).map(fkey).collect() };
+                want.sort(); got.sort();
+                if want != got {
+                    ctx.fail(if all { "iter-all-fields" } else { "iter-root-fields" }, &input,
+                        &format!("iterator yields {} fields {:?}, the recursive walk (each named fragment once) reaches {} {:?}", got.len(), got.iter().map(|x| &x.1).collect::<Vec<_>>(), want.len(), want.iter().map(|x| &x.1).collect::<Vec<_>>()));
+                }
+            }
+        }
+        // oracle: valid documents
+        let valid = build_ok && catch(|| doc.clone().validate(&v.schema).is_ok()).unwrap_or(false);
+        if valid {
+            ctx.stat("valid_documents");
+            for op in doc.operations.iter() {
+                let mut used = BTreeSet::new();
+                dirs_vars(&op.directives, &mut used);
+                valid_sels(ctx, &v.schema, &doc, &input, &op.selection_set, &mut HashSet::new(), &mut used);
+                for u in used {
+                    if !op.variables.iter().any(|vd| vd.name.as_str() == u) {
+                        ctx.fail("valid-undefined-variable", &input, &format!("valid document: operation {:?} uses `${u}` without defining it", op.name.as_ref().map(|n| n.as_str())));
+                    }
+                }
+            }
+            for fr in doc.fragments.values() {
+                let mut sp = vec![];
+                spreads_of(&fr.selection_set, &mut sp);
+                for n in sp { if !doc.fragments.contains_key(n.as_str()) { ctx.fail("valid-undefined-spread", &input, &format!("valid document: fragment `{}` spreads undefined `{n}`", fr.name)); } }
+            }
+            if let Some(c) = has_cycle(&doc) { ctx.fail("valid-cycle", &input, &format!("valid document has a fragment cycle through `{c}`")); }
+        }
+    }
+}
+
+// ---------------------------------------------------------------- fixed inputs
+
+fn fld(name: &str, sub: Vec<Sel>) -> Sel { Sel::Field { alias: None, name: name.into(), dirs: vec![], args: vec![], sub } }
+fn inl(tc: Option<&str>, sub: Vec<Sel>) -> Sel { Sel::Inline { tc: tc.map(|s| s.to_string()), dirs: vec![], sub } }
+fn spr(f: &str) -> Sel { Sel::Spread { frag: f.into(), dirs: vec![] } }
+fn q(sels: Vec<Sel>) -> Def { Def::Op(p20::Op { ty: 0, name: None, vars: vec![], dirs: vec![], sels }) }
+fn op(ty: u8, name: &str, sels: Vec<Sel>) -> Def { Def::Op(p20::Op { ty, name: Some(name.into()), vars: vec![], dirs: vec![], sels }) }
+fn frag(n: &str, tc: &str, sels: Vec<Sel>) -> Def { Def::Frag(p20::Frag { name: n.into(), tc: tc.into(), dirs: vec![], sels }) }
+
+fn fixed() -> Vec<Vec<Def>> {
+    let ty = || Sel::Field { alias: None, name: "__type".into(), dirs: vec![], args: vec![p20::Arg { name: "name".into(), value: p20::Val::Str("A".into()) }], sub: vec![fld("name", vec![]), fld("ofType", vec![fld("name", vec![])])] };
+    vec![
+        // inline fragments without type condition at every depth
+        vec![q(vec![inl(None, vec![inl(None, vec![fld("a", vec![]), fld("o", vec![inl(None, vec![inl(None, vec![fld("a", vec![])])])])])])])],
+        vec![q(vec![fld("u", vec![inl(None, vec![fld("__typename", vec![]), inl(Some("A"), vec![inl(None, vec![fld("b", vec![])])])])])])],
+        vec![q(vec![fld("i", vec![inl(None, vec![fld("a", vec![]), fld("bb", vec![])]), inl(Some("B"), vec![inl(None, vec![fld("bb", vec![])])])])])],
+        // meta-fields at allowed and disallowed places
+        vec![q(vec![fld("__typename", vec![]), fld("__schema", vec![fld("types", vec![fld("name", vec![])]), fld("__typename", vec![])]), ty()])],
+        vec![q(vec![fld("o", vec![fld("__schema", vec![fld("types", vec![fld("name", vec![])])]), ty(), fld("__typename", vec![])])])],
+        vec![op(1, "M", vec![fld("__schema", vec![fld("types", vec![fld("name", vec![])])]), fld("__typename", vec![]), fld("m", vec![fld("a", vec![])])])],
+        vec![op(2, "S", vec![fld("__typename", vec![])])],
+        vec![q(vec![fld("e", vec![fld("__typename", vec![])]), fld("a", vec![fld("__typename", vec![])])])],
+        vec![q(vec![fld("__typename", vec![fld("a", vec![])]), inl(Some("Query"), vec![fld("__type", vec![])])])],
+        // cyclic fragments, fragments spread twice, duplicate names, undefined fragments / types / fields
+        vec![q(vec![spr("F"), fld("o", vec![spr("G")]), spr("F")]), frag("F", "Query", vec![fld("a", vec![]), spr("G0")]), frag("G0", "Query", vec![fld("b", vec![]), spr("F")]), frag("G", "A", vec![fld("a", vec![]), spr("G")])],
+        vec![q(vec![fld("o", vec![spr("F"), spr("F"), fld("o", vec![spr("F")])]), spr("Nope")]), frag("F", "A", vec![fld("a", vec![])]), frag("F", "B", vec![fld("bb", vec![])])],
+        vec![q(vec![fld("o", vec![spr("F")])]), frag("F", "Nope", vec![fld("a", vec![])]), frag("F", "A", vec![fld("b", vec![]), fld("nope", vec![fld("a", vec![])])])],
+        vec![q(vec![inl(Some("Nope"), vec![fld("a", vec![])]), fld("nope", vec![fld("a", vec![])]), fld("a", vec![fld("a", vec![])]), fld("o", vec![])])],
+        vec![q(vec![fld("a", vec![])]), q(vec![fld("b", vec![])]), op(0, "N", vec![fld("e", vec![])]), op(0, "N", vec![fld("a", vec![])])],
+        vec![op(0, "N", vec![fld("a", vec![])]), q(vec![fld("b", vec![])]), op(1, "M", vec![fld("m", vec![fld("a", vec![])])])],
+    ]
+}
+
+pub fn run(ctx: &mut Ctx) {
+    let mut views = vec![];
+    for (n, src) in [("A", p20::SCHEMA_A), ("B", p20::SCHEMA_B), ("C", p20::SCHEMA_C)] {
+        match make_view(n, src) { Ok(v) => views.push(v), Err(e) => { ctx.fail("generator-schema-invalid", n, &e.replace('\n', " ")); return; } }
+    }
+    for d in fixed() { one(ctx, &views, &d, "fixed"); }
+    for d in p20::fixed() { one(ctx, &views, &d, "fixed20"); }
+    let n = if ctx.thorough { 60_000 } else { 5_000 };
+    for i in 0..n {
+        let clean = i % 2 == 0;
+        let d = p20::gen_doc(&mut ctx.rng, clean);
+        one(ctx, &views, &d, if clean { "clean" } else { "dirty" });
+    }
+}
